@@ -147,7 +147,7 @@ structure SourceShape where
   /-- `i++` -/
   loopPost : String := "i++"
   /-- statements of the loop body (logger calls ignored) -/
-  loopBody : List String := ["timer:=NewTimer(RetryInterval)", "select", "err=Execute", "if err==nil break"]
+  loopBody : List String := ["timer:=NewTimer(RetryInterval)", "select", "if ctx.Err()!=nil break loop", "err=Execute", "if err==nil break"]
   /-- the cases of the select, with their bodies -/
   selectCases : List String := ["<-timer.C:", "<-ctx.Done():timer.Stop;break loop"]
   /-- the label of the loop is the label of that `break` -/
